@@ -3,6 +3,7 @@ package props
 import (
 	"fmt"
 	"io"
+	"strings"
 	"testing"
 	"time"
 
@@ -70,6 +71,60 @@ func TestC12(t *testing.T) {
 		targets = append(targets, CustomTarget(i))
 	}
 	targets = append(targets, NoShareTargets()...) // specs without a usable key share in the first hello
+	// hellos whose only share for some key material is a hybrid one: the client then holds an
+	// X25519 (and an ML-KEM) key for groups it did not offer on their own
+	for _, pn := range []string{"Chrome_131", "Chrome_133", "Chrome_120_PQ", "Chrome_115_PQ"} {
+		p := ParrotByName(pn)
+		if p.Name == "" {
+			continue
+		}
+		targets = append(targets, Target{Name: p.Name + "+hybrid-share-only", Spec: func() (*tls.ClientHelloSpec, error) {
+			sp, err := tls.UTLSIdToSpec(p.ID)
+			if err != nil {
+				return nil, err
+			}
+			for _, e := range sp.Extensions {
+				switch x := e.(type) {
+				case *tls.KeyShareExtension:
+					var keep []tls.KeyShare
+					for _, ks := range x.KeyShares {
+						if ks.Group != tls.X25519 {
+							keep = append(keep, ks)
+						}
+					}
+					x.KeyShares = keep
+				case *tls.SupportedCurvesExtension:
+					var keep []tls.CurveID
+					for _, g := range x.Curves {
+						if g != tls.X25519 {
+							keep = append(keep, g)
+						}
+					}
+					x.Curves = keep
+				}
+			}
+			return &sp, nil
+		}})
+	}
+	// specs without a supported_groups extension (the key shares are all such a hello offers):
+	// the library's default curve list was never on the wire
+	for _, pn := range []string{"Chrome_102", "Firefox_105", "Chrome_131"} {
+		p := ParrotByName(pn)
+		targets = append(targets, Target{Name: p.Name + "-supported_groups", Spec: func() (*tls.ClientHelloSpec, error) {
+			sp, err := tls.UTLSIdToSpec(p.ID)
+			if err != nil {
+				return nil, err
+			}
+			var keep []tls.TLSExtension
+			for _, e := range sp.Extensions {
+				if _, ok := e.(*tls.SupportedCurvesExtension); !ok {
+					keep = append(keep, e)
+				}
+			}
+			sp.Extensions = keep
+			return &sp, nil
+		}})
+	}
 	type job struct {
 		t  Target
 		c  advCase
@@ -219,6 +274,37 @@ func TestC12(t *testing.T) {
 						}
 						return !share || !listed // the server of this case picks the GREASE value up from supported_groups and needs a GREASE share to relabel its own to
 					}})
+			}
+			// (5c) the server really answers on a group the hello does not offer but for which the
+			// client holds key material all the same, because it is part of a hybrid share it sent
+			// (X25519 out of a hybrid share; X25519MLKEM768 out of the Kyber draft share)
+			{
+				shared := map[uint16]bool{}
+				for _, ks := range ch.KeyShares {
+					shared[ks.Group] = true
+				}
+				for _, g := range []uint16{0x001d, 0x11ec} {
+					g := g
+					if listed[g] || shared[g] || !(shared[0x11ec] || shared[0x6399]) || g == 0x11ec && !shared[0x6399] {
+						continue
+					}
+					add(advCase{name: fmt.Sprintf("sibling_of_hybrid_share_selected(%04x)", g), max: tls.VersionTLS13,
+						plan: func() *tls.VerifPlan { return &tls.VerifPlan{ForceGroup: tls.CurveID(g), UseSiblingShare: true} },
+						value: func(cs tls.ConnectionState) string {
+							if c, ok := stateCurve(cs); ok && c == g {
+								return fmt.Sprintf("group %#04x", g)
+							}
+							return ""
+						},
+						void: func(ch *wire.ClientHello) bool {
+							for _, x := range ch.Groups {
+								if x == g {
+									return true
+								}
+							}
+							return false
+						}})
+				}
 			}
 			// (5b) the server really switches to a classical group the hello does not list, through a
 			// HelloRetryRequest, and finishes the handshake on it
@@ -485,6 +571,9 @@ func TestC12(t *testing.T) {
 			r.Violation(sig, fmt.Sprintf("%s: the client completed a handshake although the server chose something the wire hello did not offer (%s); application bytes delivered afterwards: %d (%v)", j.t.Name, j.c.name, delivered, readErr), rep)
 		} else {
 			r.Count("rejected", 1)
+			if strings.HasPrefix(j.c.name, "sibling_of_hybrid_share_selected") {
+				r.Count("sibling_group_selections_refused", 1)
+			}
 			if cs.HandshakeComplete {
 				sig["kind"] = "complete_despite_error"
 				r.Violation(sig, fmt.Sprintf("%s: Handshake returned %v but ConnectionState.HandshakeComplete is true", j.t.Name, h.ClientErr), rep)
@@ -504,6 +593,7 @@ func TestC12(t *testing.T) {
 	r.Count("case_kinds", int64(len(caseKinds)))
 	r.Floor("rejected", 500)
 	r.Floor("case_kinds", 15)
+	r.Floor("sibling_group_selections_refused", 4)
 }
 
 // compressCertPlan replaces the server's Certificate message by a valid
